@@ -605,6 +605,11 @@ class Consumer(object):
         # Got a response, clear our outstanding request deferred
         self._request_d = None
 
+        if self._start_d is None:
+            # Stopped: this is the late result of a request stop() cancelled
+            # (the client may complete it after the fact). Ignore it.
+            return
+
         # Successful request, reset our retry delay, count, etc
         self.retry_delay = self.retry_init_delay
         self._fetch_attempt_count = 1
@@ -637,6 +642,11 @@ class Consumer(object):
         """
         # outstanding request got errback'd, clear it
         self._request_d = None
+
+        if self._start_d is None:
+            # Stopped: this is the late result of a request stop() cancelled
+            # (the client may complete it after the fact). Ignore it.
+            return
 
         if self._stopping:
             # Not really an error: stop() cancelled the request. The client
@@ -858,6 +868,11 @@ class Consumer(object):
         # The _request_d deferred has fired, clear it.
         self._request_d = None
 
+        if self._start_d is None:
+            # Stopped: this is the late result of a request stop() cancelled
+            # (the client may complete it after the fact). Ignore it.
+            return
+
         if failure.check(OffsetOutOfRangeError):
             if self.auto_offset_reset is None:
                 self._start_d.errback(failure)
@@ -899,6 +914,12 @@ class Consumer(object):
         defer this processing until it's done.  Otherwise, we start another
         fetch request and submit the messages to the processor
         """
+        if self._start_d is None:
+            # Stopped: this is the late reply to a request stop() cancelled
+            # (the client may complete it after the fact). Deliver nothing.
+            self._request_d = None
+            return
+
         # Successful fetch, reset our retry delay
         self.retry_delay = self.retry_init_delay
         self._fetch_attempt_count = 1
